@@ -61,6 +61,7 @@ type stream struct {
 func (w *stream) trigger(e *event) {
 	w.mut.Lock()
 	w.events = append(w.events, e)
+	vhook("s.trigger", w, nil, uint64(len(w.events)), 0)
 	w.mut.Unlock()
 	w.cond.Signal()
 }
@@ -69,6 +70,7 @@ func (w *stream) ReadMessage(b []byte, m interface{}) (err error) {
 	w.mut.Lock()
 	if atomic.LoadInt32(&w.closed) > 0 {
 		w.mut.Unlock()
+		vhook("s.read.shutdown", w, nil, 0, 0)
 		err = ErrStreamShutdown
 		return
 	}
@@ -76,6 +78,7 @@ func (w *stream) ReadMessage(b []byte, m interface{}) (err error) {
 		if len(w.events) > 0 {
 			e := w.events[0]
 			w.events = w.events[1:]
+			vhook("s.read", w, nil, uint64(len(w.events)), 0)
 			w.mut.Unlock()
 			if !w.noCopy {
 				if cap(b) > len(e.Value) {
@@ -97,6 +100,7 @@ func (w *stream) ReadMessage(b []byte, m interface{}) (err error) {
 		w.cond.Wait()
 		if atomic.LoadInt32(&w.closed) > 0 {
 			w.mut.Unlock()
+			vhook("s.read.shutdown", w, nil, 1, 0)
 			err = ErrStreamShutdown
 			return
 		}
@@ -114,6 +118,7 @@ func (w *stream) WriteMessage(m interface{}) (err error) {
 func (w *stream) stop() {
 	w.mut.Lock()
 	atomic.StoreInt32(&w.closed, 1)
+	vhook("s.stop", w, nil, 0, 0)
 	w.mut.Unlock()
 	w.cond.Broadcast()
 }
